@@ -377,7 +377,11 @@ func _expandBorderSide(_ string, shortand pr.Shortand, tokens []Token) ([]namedT
 	out := make([]namedTokens, len(tokens))
 	for index, token := range tokens {
 		var suffix string
-		if !pa.ParseColor(token).IsNone() {
+		isColor := !pa.ParseColor(token).IsNone()
+		if shortand == pr.SOutline { // outline-color has a keyword of its own
+			isColor = outlineColor([]Token{token}, "") != nil
+		}
+		if isColor {
 			suffix = "-color"
 		} else if borderWidth([]Token{token}, "") != nil {
 			suffix = "-width"
